@@ -4,6 +4,7 @@ import (
 	"encoding/json"
 	"fmt"
 	"net/http"
+	"unicode/utf8"
 
 	"github.com/formancehq/stack/libs/go-libs/pointer"
 
@@ -122,6 +123,12 @@ func postAccountMetadata(w http.ResponseWriter, r *http.Request) {
 }
 
 func deleteAccountMetadata(w http.ResponseWriter, r *http.Request) {
+	// path segments are percent-decoded bytes: what is not text cannot be written to the log and read back
+	if !utf8.ValidString(chi.URLParam(r, "address")) || !utf8.ValidString(chi.URLParam(r, "key")) {
+		sharedapi.BadRequest(w, ErrValidation, errors.New("invalid account address or metadata key"))
+		return
+	}
+
 	if err := backend.LedgerFromContext(r.Context()).
 		DeleteMetadata(
 			r.Context(),
